@@ -19,7 +19,11 @@ def _cbrt(v):
 def _cardano(b, d):
     """the real root of x^3 + b x - d = 0 for b > 0 (monotone cubic)."""
     s = math.sqrt(d * d / 4.0 + b ** 3 / 27.0)
-    return _cbrt(d / 2.0 + s) + _cbrt(d / 2.0 - s)
+    if d == 0:
+        return 0.0
+    # stable form (no cancellation for small b): t = cbrt(d/2 + sign(d) s), x = t - b / (3 t)
+    t = _cbrt(d / 2.0 + math.copysign(s, d))
+    return t - b / (3.0 * t)
 
 
 # more than ten data (numbered by position): d0 x + sum_{k>=1} w_k d_k = 0
